@@ -180,7 +180,7 @@ def composite_cases(ctx):
     for li in range(3 if ctx.tier == "quick" else 12):
         fam = CP.gen_family(rng)
         for k in range(40 if ctx.tier == "quick" else 200):
-            text = CP.gen_expr_text(rng, fam, depth=rng.randint(1, 3), linear_only=True)
+            text = CP.gen_expr_text(rng, fam, depth=rng.randint(1, 3), linear_only=rng.random() < 0.5)
             try:
                 e = fam.lang.parse(text, *fam.sources())
                 p = e.primitive()
